@@ -38,6 +38,32 @@ def shapes():
            ("Equals", ("Store", ("Store", a, L(1), L(5)), L(1), L(6)), a),
            ("Equals", ("Store", ("Store", a, L(1), L(5)), L(2), L(6)), ("Store", ("Store", a, L(2), L(6)), L(1), L(5))),
            ("Equals", ("Store", a, i, ("Select", a, i)), a)]
+    # finite index sorts (BV{1}, Bool): once every index has an explicit entry the default is irrelevant, so one array
+    # has several array-value spellings; equal arrays may be different nodes
+    BV1, BV8 = ("BV", 1), ("BV", 8)
+
+    def FV(idx, el, default, *pairs):
+        return ("Array", ("type", idx), ("lit", default, el),
+                ("dict",) + tuple((("lit", i, idx), ("lit", v, el)) for i, v in pairs))
+    fin = [(FV(BV1, BV8, 0, (0, 1), (1, 1)), FV(BV1, BV8, 1)),
+           (FV(BV1, BV8, 0, (0, 1)), FV(BV1, BV8, 1, (1, 0))),
+           (FV(BV1, BV8, 0, (0, 1)), FV(BV1, BV8, 1)),
+           (FV(BV1, BV8, 0), FV(BV1, BV8, 0)),
+           (FV(BV1, INT, 3, (1, 4)), FV(BV1, INT, 4, (0, 3))),
+           (FV(BOOL, INT, 3, (True, 4)), FV(BOOL, INT, 4, (False, 3))),
+           (FV(BOOL, INT, 3, (True, 4)), FV(BOOL, INT, 4)),
+           (FV(("BV", 2), INT, 0, (0, 1), (1, 1), (2, 1), (3, 1)), FV(("BV", 2), INT, 1)),
+           (FV(("BV", 2), INT, 0, (0, 1), (1, 1), (2, 1)), FV(("BV", 2), INT, 1))]
+    fa = S("fm", ("ARRAY", BV1, BV8))
+    fx = S("fx", BV8)
+    for c, d in fin:
+        sh.append(("Equals", c, d))
+        sh.append(("Not", ("Equals", c, d)))
+        sh.append(("Iff", ("Equals", c, d), S("q", BOOL)))
+    sh += [("Equals", ("Store", fin[0][1], ("lit", 0, BV1), ("lit", 1, BV8)), fin[0][1]),
+           ("Equals", ("Store", ("Store", fin[3][0], ("lit", 0, BV1), ("lit", 1, BV8)), ("lit", 1, BV1), ("lit", 1, BV8)), fin[0][1]),
+           ("Equals", ("Select", fin[1][0], ("lit", 1, BV1)), fx),
+           ("Equals", ("Store", fin[1][0], ("lit", 1, BV1), ("lit", 1, BV8)), fa)]
     return [Shape(t) for t in sh]
 
 
